@@ -118,10 +118,9 @@ def inline_into(fn, callee_of, eligible, depth=0):
     return n
 
 
-def run(prog):
+def run(prog, ws=("msi", "msi_ffi")):
     """inline unknown same-workspace helpers into every analysed function; returns {fn name: [helpers inlined]}"""
     known = load_known()
-    ws = ("msi", "msi_ffi")
 
     def eligible(g):
         return g.crate in ws and g.kind in ("Fn", "AssocFn") and g.name not in known and g.impl_trait is None and not recursive(g)
